@@ -46,7 +46,7 @@ Section Inv.
   Lemma inv_init n : Inv (init n).
   Proof.
     split.
-    - unfold refs_exist. cbn. split; [constructor|]. split; [constructor|]. split; [constructor|]. intros; constructor.
+    - unfold refs_exist. cbn. split; [constructor|]. split; [constructor|]. split; [constructor|]. split; [constructor|]. split; [intros; constructor | constructor].
     - intros c r. cbn. split; [intros [] | intros (k & _ & _ & [])].
   Qed.
 
@@ -68,7 +68,7 @@ Section Inv.
 
   Theorem inv_insert s ch rows : Inv s -> valid s (Insert ch rows) -> Inv (step s (Insert ch rows)).
   Proof.
-    intros [(R1 & R2 & R3 & R4) P] (Hch & Hnd & Hrows). unfold params_where_channel in P. split.
+    intros [(R1 & R2 & R2c & R3 & R4 & R5) P] (Hch & Hnd & Hrows). unfold params_where_channel in P. split.
     - unfold refs_exist. simpl. repeat split; auto. intros k Hk. unfold fupd. destruct (k =? ch); [apply Forall_union; auto | auto].
     - intros c r. cbn [col chan step].
       rewrite (fold_cols (fun _ l => union l rows) (owns ch) Hnd).
@@ -87,7 +87,7 @@ Section Inv.
 
   Theorem inv_delete s ch rows : Inv s -> valid s (Delete ch rows) -> Inv (step s (Delete ch rows)).
   Proof.
-    intros [(R1 & R2 & R3 & R4) P] (Hch & Hnd & Hrows). unfold params_where_channel in P. split.
+    intros [(R1 & R2 & R2c & R3 & R4 & R5) P] (Hch & Hnd & Hrows). unfold params_where_channel in P. split.
     - unfold refs_exist. simpl. repeat split; auto. intros k Hk. unfold fupd. destruct (k =? ch); [apply Forall_diff; auto | auto].
     - intros c r. cbn [col chan step].
       rewrite (fold_cols (fun c l => diff l (filter (fun r => negb (other_users owns nchan s ch c r)) rows)) (owns ch) Hnd).
@@ -110,10 +110,19 @@ Section Inv.
         * unfold fupd in Hr. destruct (Nat.eqb_spec k ch) as [->|]; [contradiction | exact Hr].
   Qed.
 
-  Theorem inv_simple s o : Inv s -> valid s o ->
-    match o with Record_ _ | DeleteRecordings _ | Stimulate _ | DeleteStimuli _ | AddToGroup _ _ => Inv (step s o) | _ => True end.
+  Lemma Forall_drop_rows n rows tr : Forall (Forall (fun r => r < n)) tr -> Forall (Forall (fun r => r < n)) (drop_rows rows tr).
   Proof.
-    intros [(R1 & R2 & R3 & R4) P] V. destruct o; try exact I; cbn in V; split; try exact P; unfold refs_exist; simpl.
+    intros H. unfold drop_rows. apply Forall_forall. intros g Hg. apply filter_In in Hg. destruct Hg as [Hg _].
+    apply in_map_iff in Hg. destruct Hg as (g0 & <- & Hg0). rewrite Forall_forall in H. apply Forall_diff. auto.
+  Qed.
+
+  Theorem inv_simple s o : Inv s -> valid s o ->
+    match o with
+    | Record_ _ | DeleteRecordings _ | Stimulate _ | DeleteStimuli _ | AddToGroup _ _
+    | Clamp _ | DeleteClamps _ | SetParam _ | InitStates | MakeTrainable _ | DeleteTrainables _ | DeleteTrainablesOld _ => Inv (step s o)
+    | _ => True end.
+  Proof.
+    intros [(R1 & R2 & R2c & R3 & R4 & R5) P] V. destruct o; try exact I; cbn in V; split; try exact P; unfold refs_exist; simpl.
     - repeat split; auto. apply Forall_union; auto.
     - repeat split; auto. apply Forall_diff; auto.
     - repeat split; auto. apply Forall_app. split; auto.
@@ -123,6 +132,43 @@ Section Inv.
         cbn [fst snd]. apply in_combine_r in Hin. rewrite Forall_forall in R3.
         destruct (i =? g); [apply Forall_union; auto | auto].
       + apply Forall_app. split; [exact R3 | constructor; [exact V | constructor]].
+    - repeat split; auto. apply Forall_union; auto.
+    - repeat split; auto. apply Forall_diff; auto.
+    - repeat split; auto.
+    - repeat split; auto.
+    - repeat split; auto. apply Forall_app. split; [exact R5 | constructor; [exact V | constructor]].
+    - repeat split; auto. apply Forall_forall. intros tr Htr. apply filter_In in Htr. destruct Htr as [Htr _].
+      apply in_map_iff in Htr. destruct Htr as (tr0 & <- & Htr0). rewrite Forall_forall in R5. apply Forall_drop_rows. auto.
+    - repeat split; auto.
+  Qed.
+
+  (* delete_trainables through a view removes exactly the rows of the view from every
+     trainable group, drops what becomes empty and touches nothing else *)
+  Theorem delete_trainables_exact s rows r :
+    let s' := step s (DeleteTrainables rows) in
+    (exists tr g, In tr (trains s') /\ In g tr /\ In r g) <->
+    (~ In r rows /\ exists tr g, In tr (trains s) /\ In g tr /\ In r g).
+  Proof.
+    cbn [step trains]. split.
+    - intros (tr & g & Htr & Hg & Hr). apply filter_In in Htr. destruct Htr as [Htr _].
+      apply in_map_iff in Htr. destruct Htr as (tr0 & <- & Htr0). unfold drop_rows in Hg.
+      apply filter_In in Hg. destruct Hg as [Hg _]. apply in_map_iff in Hg. destruct Hg as (g0 & <- & Hg0).
+      apply in_diff in Hr. split; [tauto|]. exists tr0, g0. tauto.
+    - intros (Hn & tr0 & g0 & Htr0 & Hg0 & Hr).
+      assert (Hd : In r (diff g0 rows)) by (apply in_diff; tauto).
+      exists (drop_rows rows tr0), (diff g0 rows). repeat split; auto.
+      + apply filter_In. split; [apply in_map_iff; exists tr0; split; [reflexivity | exact Htr0]|].
+        assert (In (diff g0 rows) (drop_rows rows tr0)).
+        { unfold drop_rows. apply filter_In. split; [apply in_map_iff; exists g0; split; [reflexivity | exact Hg0]|]. destruct (diff g0 rows); [destruct Hd | reflexivity]. }
+        destruct (drop_rows rows tr0); [contradiction | reflexivity].
+      + unfold drop_rows. apply filter_In. split; [apply in_map_iff; exists g0; split; [reflexivity | exact Hg0]|]. destruct (diff g0 rows); [destruct Hd | reflexivity].
+  Qed.
+  Theorem delete_trainables_no_empty s rows :
+    Forall (fun tr => tr <> [] /\ Forall (fun g => g <> []) tr) (trains (step s (DeleteTrainables rows))).
+  Proof.
+    cbn [step trains]. apply Forall_forall. intros tr Htr. apply filter_In in Htr. destruct Htr as [Htr Hne].
+    split; [intros ->; discriminate|]. apply in_map_iff in Htr. destruct Htr as (tr0 & <- & _).
+    unfold drop_rows. apply Forall_forall. intros g Hg. apply filter_In in Hg. destruct Hg as [_ Hg]. intros ->. discriminate.
   Qed.
 
   (* full characterisation of the remapped labels *)
@@ -158,8 +204,8 @@ Section Inv.
 
   Theorem inv_set_ncomp s b old new : Inv s -> valid s (SetNcomp b old new) -> Inv (step s (SetNcomp b old new)).
   Proof.
-    intros [(R1 & R2 & R3 & R4) P] (Hb & Hold & Hnew & Hrec & Hext). unfold params_where_channel in P. split.
-    - unfold refs_exist. simpl. rewrite Hrec, Hext. repeat split; try constructor.
+    intros [(R1 & R2 & R2c & R3 & R4 & R5) P] (Hb & Hold & Hnew & Hrec & Hext & Hcl & Htr). unfold params_where_channel in P. split.
+    - unfold refs_exist. simpl. rewrite Hrec, Hext, Hcl, Htr. repeat split; try constructor.
       + apply Forall_forall. intros g Hg. apply in_map_iff in Hg. destruct Hg as (g0 & <- & Hg0).
         rewrite Forall_forall in R3. apply remap_bound; auto.
       + intros k Hk. apply remap_bound; auto.
@@ -179,7 +225,7 @@ Section Inv.
   Qed.
 
   (* every accepted history leaves a consistent module *)
-  Definition is_old (o : op) : bool := match o with DeleteOld _ _ => true | _ => false end.
+  Definition is_old (o : op) : bool := match o with DeleteOld _ _ | DeleteTrainablesOld _ => true | _ => false end.
   Theorem inv_step s o : is_old o = false -> Inv s -> valid s o -> Inv (step s o).
   Proof.
     intros Hn HI V. destruct o; try discriminate.
@@ -191,6 +237,12 @@ Section Inv.
     - exact (inv_simple s (DeleteStimuli rows) HI V).
     - exact (inv_simple s (AddToGroup g rows) HI V).
     - apply inv_set_ncomp; assumption.
+    - exact (inv_simple s (Clamp rows) HI V).
+    - exact (inv_simple s (DeleteClamps rows) HI V).
+    - exact (inv_simple s (SetParam rows) HI V).
+    - exact (inv_simple s InitStates HI V).
+    - exact (inv_simple s (MakeTrainable gs) HI V).
+    - exact (inv_simple s (DeleteTrainables rows) HI V).
   Qed.
 
   Fixpoint run (s : st) (h : list op) : st := match h with [] => s | o :: h' => run (step s o) h' end.
@@ -219,7 +271,15 @@ Proof. repeat split; reflexivity. Qed.
 Lemma c19_example :
   all_valid owns_ex 2 (init 3) [Insert 0 [0; 2]; AddToGroup 0 [1; 2]; SetNcomp 0 1 2; Record_ [3]].
 Proof.
-  cbn [all_valid is_old valid step init nrows recs exts groups chan col].
+  cbn [all_valid is_old valid step init nrows recs exts clamps groups chan col trains].
   repeat match goal with |- _ /\ _ => split end; try reflexivity; try lia;
     repeat (constructor; try lia); cbn; intuition lia.
 Qed.
+
+(* the repaired defect F27 stays refuted in the model of the OLD view-level delete_trainables:
+   the trainable created on rows 0,1 survives its deletion through the same view *)
+Lemma delete_trainables_old_refuted :
+  let h del := [MakeTrainable [[0; 1]]; MakeTrainable [[0]; [1]; [2]]; del] in
+  trains (run owns_ex 2 (init 3) (h (DeleteTrainablesOld [0; 1]))) = [[[0; 1]]; [[0]; [1]; [2]]] /\
+  trains (run owns_ex 2 (init 3) (h (DeleteTrainables [0; 1]))) = [[[2]]].
+Proof. split; reflexivity. Qed.
